@@ -4,12 +4,12 @@
    instances - on every buffer, every start offset inside it, every object state satisfying the
    stated invariant (fresh objects do; every suspended object does again, so every chunk schedule is
    covered) - for Call-ID, unsigned-integer (Expires), Content-Length, CSeq, the first line, token
-   parameters (every flag set) and SkipQuoted: no panic, no stuck loop, returned offset inside the
+   parameters (every flag set), SkipQuoted and the 23-state name-addr automaton (From / To /
+   Contact / PAI values, every header kind): no panic, no stuck loop, returned offset inside the
    buffer, every reported field dereferenceable against the buffer; ParseURI never panics on any
    byte string (and its error positions lie inside the input); totality of the look-ups incl. the
-   empty name; relocation never corrupts.  Not proved: the instances for the name-addr automaton, the
-   header line / block and the message (their invariants need per-state facts about pairs of saved
-   offsets), which the correspondence + crash oracle cover.
+   empty name; relocation never corrupts.  Not proved: the instances for the multi-value lists, the
+   header line / block and the message, which the correspondence + crash oracle cover.
    Concurrency: model functions are pure; data races are runtime behaviour outside the model. *)
 From Sipsp Require Import Harness RunLemmas Safe SafeLeaf SafeMore Classify URIOffsets URIViews URILossless.
 Theorem C04_safety_rule : forall (St : Type) (iter : list byte -> list byte -> N -> St -> ires St)
@@ -75,3 +75,16 @@ Theorem C04_fresh_objects_satisfy_the_invariants : forall o,
 Proof. exact (fun o => conj (callid0_inv o) (conj (uintb0_inv o) (conj (cseq0_inv o) (conj (fline0_inv o) (tokparam0_inv o))))). Qed.
 Theorem C04_parse_uri_never_panics : forall uri, parse_uri uri puri0 <> None.
 Proof. exact parse_uri_total. Qed.
+
+(* the name-addr automaton: L is any lower bound of the start of the value that the caller wants kept *)
+Theorem C04_name_addr : forall L h buf offs s, offs <= nnat (length buf) ->
+  fb_inv L (rev (firstn (N.to_nat offs) buf)) offs s ->
+  match parse_nameaddr h buf offs s with
+  | Done o e s' => o <= nnat (length buf) /\ fb_bnd L (nnat (length buf)) s' /\
+                   (e = EMore -> offs <= o /\ fb_inv L (rev (firstn (N.to_nat o) buf)) o s') /\
+                   (e = EOk \/ e = EMoreValues -> offs <= o)
+  | _ => False
+  end.
+Proof. exact nameaddr_safe. Qed.
+Theorem C04_fresh_name_addr_satisfies_the_invariant : forall L pre o, L <= o -> fb_inv L pre o pfrom0.
+Proof. exact pfrom0_inv. Qed.
